@@ -36,11 +36,18 @@ needs them.  The laws:
               same leaf types), the spec is unchanged (== and repr of a clone)
   accept.*    acceptance agrees with the structural expectation where there is one
   default.*   the default of a spec is accepted by it (allow_partial: defaults
-              may be partial), also after noneable(), freeze(), extend()
+              may be partial), also after noneable(), freeze(), extend(), and
+              after set_default(v) / freeze(v) whether the call succeeds or is
+              refused (v: rejected values of every kind, accepted values)
   compat.*    a.is_compatible(b)  =>  every pooled value of b is accepted by a
   extend.*    clone(c).extend(b) succeeded  =>  every pooled value of the
               extension is accepted by b (on the fields the Dict schemas share),
-              b.is_compatible(extension) (same Dict keys), default still accepted
+              b.is_compatible(extension) (same Dict keys), default still accepted.
+              The child is extended as constructed and ("applying never changes
+              the spec") after it was applied to values: every child with a
+              user transform, a sample of the others.  The ids of these say so:
+              extend.[applied-]transform-child-<classes with the transform>.* and
+              extend.applied-child.*
   union.*     a Union accepts a value only if a candidate does, and accepts
               every value that a candidate holds as it is
   frozen.*    a frozen spec accepts its frozen value, yields it, and rejects
@@ -57,9 +64,12 @@ that one defect gives one id wherever it is nested.
 
 Str specs with a regular expression take part in the apply/default/frozen
 checks only (the statement excludes them from compatibility).  Specs with a
-user transform (always a total, idempotent converter here) take part in the
-apply/default checks and as *bases* of extensions of their own class only:
-what a user function accepts is not something is_compatible could know.
+user transform (always a total, idempotent converter here, the identity on
+the values of the spec's own type) take part in the apply/default checks, as
+*children* of extensions (the values they hold as they are must be accepted by
+the base) and as *bases* of extensions of their own class only; they are left
+out of the soundness check of is_compatible: what a user function accepts is
+not something is_compatible could know.
 """
 import copy
 import re
@@ -1913,9 +1923,22 @@ def family(c, applied):
 
 
 def drv_extend(tier, seed):
+  """Children without a user transform."""
+  return _drv_extend(tier, seed, False)
+
+
+def drv_extend_transform(tier, seed):
+  """Children with a user transform (their own, or of an element / field /
+  candidate), as constructed and after they were applied to values."""
+  return _drv_extend(tier, seed, True)
+
+
+def _drv_extend(tier, seed, part):
   rec = Recorder('C04', 'clone(c).extend(b) succeeds => values of the extension are values '
                  'of b; b.is_compatible(extension); default still accepted; the same for a '
-                 'child (with / without user transform) that was applied before', scope='')
+                 'child that was applied to values before' +
+                 (' -- children with a user transform' if part else
+                  ' -- children without user transform'), scope='')
   U = Universe(tier, seed, want=lambda a: not has_regex(a),
                n_random=n_random(tier, 30, 300))
   n = len(U.specs)
@@ -1927,6 +1950,8 @@ def drv_extend(tier, seed):
   for i in range(n):
     c, ec = U.descs[i], U.exprs[i]
     tc = has_transform(c)
+    if tc != part:
+      continue
     cpaths = paths[i]
     # values the child holds as they are: applied to it before the extension
     # in the `applied` variants ("applying never changes the spec").
@@ -1940,7 +1965,7 @@ def drv_extend(tier, seed):
         rel = _related(c, b)
         p_keep = (0.5 if c['k'] == b['k'] and c['k'] in _BIG and not tc else 1.0) if rel else 0.04
         if has_transform(b):
-          p_keep *= 0.3       # (bases with a user transform: a sample.)
+          p_keep *= 0.3 if tc else 0.2    # (bases with a user transform: a sample.)
       else:
         p_keep = 1.0 if _related(c, b) else 0.05
       if p_keep < 1.0 and r.random() > p_keep:
@@ -1952,7 +1977,7 @@ def drv_extend(tier, seed):
       # was applied to values; a sample of the other children likewise.
       variants = [False]
       if held and ((tc and not has_value(c)) or
-                   (not tc and r2.random() < (0.08 if tier == 'quick' else 0.25))):
+                   (not tc and r2.random() < (0.05 if tier == 'quick' else 0.25))):
         variants.append(True)
       # NOTE: the base is one object per b, reused over all children (a fresh
       # one per pair doubles the cost); `extend` has no business changing its
@@ -1976,6 +2001,7 @@ def drv_extend(tier, seed):
         n_applied += applied
         _check_extension(rec, U, tier, i, j, ext, base, fam, mk,
                          bool(cpaths) and cpaths != paths[j])
+  n_children = sum(1 for a in U.descs if has_transform(a) == part)
   for j, base in enumerate(bases):
     clone = ev(U.exprs[j])
     if not (base == clone and repr(base) == repr(clone)):
@@ -1983,10 +2009,11 @@ def drv_extend(tier, seed):
       rec.case(f'extend.base-object-unchanged/{U.descs[j]["k"]}', U.exprs[j], False,
                f'{U.exprs[j]} was changed by serving as the base of extensions: {R(base)}',
                '# see message\nraise AssertionError("base changed by extend")')
-  rec.scope = (f'{n_pairs} ordered pairs (c, b) of {n} regex-free specs '
-               f'({"related pairs (half of the transform-free List/Tuple/Dict/Union ones, 30% of those with a base that has a user transform) + 4% of the rest" if tier == "quick" else "all related pairs + 5% of the rest"}), '
+  rec.scope = (f'{n_pairs} ordered pairs (c, b): c one of the {n_children} specs '
+               f'{"with" if part else "without"} a user transform, b one of {n} regex-free specs '
+               f'({"related pairs (half of the transform-free List/Tuple/Dict/Union ones, 20-30% of those with a base that has a user transform) + 4% of the rest" if tier == "quick" else "all related pairs + 5% of the rest"}), '
                f'{n_ok} successful extensions ({n_applied} of a child that was applied to values '
-               f'first: every child with a user transform, a sample of the others), each on the '
+               f'first: {"every child that has no default / frozen value" if part else "a sample"}), each on the '
                f'values of both pools + core that b '
                f'rejects{" and c accepts" if tier == "quick" else ""} ({len(U.pool)} distinct values)')
   return rec.result()
@@ -2378,7 +2405,7 @@ def _check_classes(rec, c, b, ec, eb, layout, xs):
   return 1
 
 
-DRIVERS = [drv_apply, drv_compat, drv_extend, drv_schema]
+DRIVERS = [drv_apply, drv_compat, drv_extend, drv_extend_transform, drv_schema]
 
 
 def replay(rec):
